@@ -125,6 +125,8 @@ mod sketch;
 mod union;
 
 pub use self::sketch::HllSketch;
+#[cfg(feature = "verif-hooks")]
+pub use self::sketch::VerifHllState;
 pub use self::union::HllUnion;
 
 /// Target HLL type.
